@@ -6,7 +6,9 @@
 From Coq Require Import ZArith List.
 From SP Require Import Base.Result Base.Bytes Base.Crc16 Base.Crc16Facts Base.Crc16Burst
   Model.SpacePacket Model.PusTc Model.PusTm Spec.PusSpec Model.PduHeader Spec.PduHeaderSpec
-  Model.FileData Spec.FileDataSpec Proofs.CorruptProofs Proofs.CorruptCfdp.
+  Model.FileData Spec.FileDataSpec Proofs.CorruptProofs Proofs.CorruptCfdp
+  Model.Eof Model.Ack Model.Prompt Model.KeepAlive Spec.PduASpec Proofs.EofProofs Proofs.DirectiveCrc Proofs.PduACrc
+  Model.Finished Model.Metadata Spec.PduBSpec Proofs.CorruptCfdpB.
 Import ListNotations.
 Open Scope Z_scope.
 
@@ -71,6 +73,40 @@ Theorem C04_fd_corrupt_rejected : forall c q e,
   exists x, fd_unpack (xor_bytes p e) = Err x /\ documented x = true.
 Proof. exact fd_corrupt_rejected. Qed.
 Print Assumptions C04_fd_corrupt_rejected.
+
+(* --- the directive PDUs (same protected positions) --- *)
+Theorem C04_eof_corrupt_rejected : forall c q e, eof_wf c q -> cf_crc c = 1 ->
+  burst16 e -> length e = length (eof_layout c q) -> length_fields_untouched e ->
+  exists x, eof_unpack (xor_bytes (eof_layout c q) e) = Err x /\ documented x = true.
+Proof. exact eof_corrupt_rejected. Qed.
+Print Assumptions C04_eof_corrupt_rejected.
+Theorem C04_ack_corrupt_rejected : forall c q e, ack_valid c q -> cf_crc c = 1 ->
+  burst16 e -> length e = length (ack_layout c q) -> length_fields_untouched e ->
+  exists x, ack_unpack (xor_bytes (ack_layout c q) e) = Err x /\ documented x = true.
+Proof. exact ack_corrupt_rejected. Qed.
+Print Assumptions C04_ack_corrupt_rejected.
+Theorem C04_prompt_corrupt_rejected : forall c rr e, prompt_valid c rr -> cf_crc c = 1 ->
+  burst16 e -> length e = length (prompt_layout c rr) -> length_fields_untouched e ->
+  exists x, prompt_unpack (xor_bytes (prompt_layout c rr) e) = Err x /\ documented x = true.
+Proof. exact prompt_corrupt_rejected. Qed.
+Print Assumptions C04_prompt_corrupt_rejected.
+Theorem C04_ka_corrupt_rejected : forall c v e, conf_valid c -> cf_crc c = 1 ->
+  burst16 e -> length e = length (ka_layout c v) -> length_fields_untouched e ->
+  exists x, ka_unpack (xor_bytes (ka_layout c v) e) = Err x /\ documented x = true.
+Proof. exact ka_corrupt_rejected. Qed.
+Print Assumptions C04_ka_corrupt_rejected.
+Theorem C04_fin_corrupt_rejected : forall c q e, fin_valid c q -> cf_crc c = 1 ->
+  let p := fin_layout c q in
+  burst16 e -> length e = length p -> cfdp_untouched e ->
+  exists x, fin_unpack (xor_bytes p e) = Err x /\ documented x = true.
+Proof. exact fin_corrupt_rejected. Qed.
+Print Assumptions C04_fin_corrupt_rejected.
+Theorem C04_md_corrupt_rejected : forall c q o e, md_valid c q o -> cf_crc c = 1 ->
+  let p := md_layout c q o in
+  burst16 e -> length e = length p -> cfdp_untouched e ->
+  exists x, md_unpack (xor_bytes p e) = Err x /\ documented x = true.
+Proof. exact md_corrupt_rejected. Qed.
+Print Assumptions C04_md_corrupt_rejected.
 
 (* --- refuted part, protocol-inherent: flipping the CRC flag itself (a single-bit error that
        leaves octets 1-3 alone) makes the decoder skip verification; the PDU is accepted with the
